@@ -458,6 +458,9 @@ private:
   static void check_serial_version(uint8_t serial_version);
   static void check_family_id(uint8_t family_id);
   static void check_num_levels(uint8_t num_levels);
+  static void check_lg_weight(uint8_t lg_weight, size_t level);
+  static void check_n(uint64_t n, uint64_t weight);
+  static uint64_t max_num_items(uint8_t num_levels, size_t level, uint16_t k, uint64_t weight_left);
 
   template<typename TT = T, typename std::enable_if<std::is_floating_point<TT>::value, int>::type = 0>
   static inline bool check_update_item(const TT& item) {
